@@ -1,5 +1,5 @@
 (* C15 -- lemmas about the model of multi-level structured matrices. *)
-From Coq Require Import ZArith List Bool Lia Arith.
+From Coq Require Import ZArith List Bool Lia Arith Sorted.
 From Verif.C15 Require Import Model Spec.
 Import ListNotations.
 Open Scope Z_scope.
@@ -841,4 +841,188 @@ Proof.
       replace (Z.to_nat (a - i)) with (S (Z.to_nat (a - (i + 1)))) by lia. simpl. auto. }
   intros H. destruct (G supp2 0 ltac:(lia) H) as (s2 & s1 & Hb & Ha & H2 & H1 & Ho).
   rewrite Z.sub_0_r in H2. exists s2, s1. repeat split; auto.
+Qed.
+
+(* ------------------------------------------------------------------------ *)
+(* compute_sparsity_ij: completeness for monotone support arrays             *)
+(* ------------------------------------------------------------------------ *)
+
+Lemma filter_le_nil : forall L a v, Forall (fun x => a <= x) L -> v < a -> filter (fun e => e <=? v) L = [].
+Proof.
+  induction 1; intros; simpl; auto. replace (x <=? v) with false. auto.
+  symmetry. apply Z.leb_gt. lia.
+Qed.
+
+(* (a) an element greater than v lies behind the prefix counted by searchsorted *)
+Lemma ss_prefix : forall L v k e, StronglySorted Z.le L -> nth_error L k = Some e -> v < e ->
+  (searchsorted_right L v <= k)%nat.
+Proof.
+  unfold searchsorted_right. induction L as [|a L IH]; intros v k e HS Hn He.
+  - simpl. lia.
+  - inversion HS; subst. simpl. destruct (Z.leb_spec a v).
+    + destruct k as [|k]; simpl in Hn. * inversion Hn; subst. lia.
+      * simpl. specialize (IH v k e H1 Hn He). lia.
+    + rewrite (filter_le_nil L a v); auto. simpl. lia.
+Qed.
+
+(* (c) elements at or behind the searchsorted position are greater than v *)
+Lemma ss_suffix : forall L v k e, StronglySorted Z.le L -> nth_error L k = Some e ->
+  (searchsorted_right L v <= k)%nat -> v < e.
+Proof.
+  unfold searchsorted_right. induction L as [|a L IH]; intros v k e HS Hn Hk.
+  - destruct k; discriminate.
+  - inversion HS; subst. simpl in Hk. destruct (Z.leb_spec a v).
+    + simpl in Hk. destruct k as [|k]; [lia|]. simpl in Hn. apply (IH v k e); auto. lia.
+    + destruct k as [|k]; simpl in Hn.
+      * inversion Hn; subst. lia.
+      * rewrite Forall_forall in H2. apply nth_error_In in Hn. specialize (H2 _ Hn). lia.
+Qed.
+
+Lemma ss_mono : forall L a b x y, StronglySorted Z.le L -> (a <= b)%nat ->
+  nth_error L a = Some x -> nth_error L b = Some y -> x <= y.
+Proof.
+  induction L as [|h L IH]; intros a b x y HS Hab Ha Hb.
+  - destruct a; discriminate.
+  - inversion HS; subst. destruct a as [|a], b as [|b]; simpl in *; try lia.
+    + inversion Ha; inversion Hb; subst. lia.
+    + inversion Ha; subst. rewrite Forall_forall in H2. apply nth_error_In in Hb. auto.
+    + apply (IH a b); auto. lia.
+Qed.
+
+Lemma while_complete : forall s2 i rest j k s1, nth_error rest k = Some s1 ->
+  (forall k' s, (k' <= k)%nat -> nth_error rest k' = Some s -> do_intersect s2 s = true) ->
+  In (i, j + Z.of_nat k) (while_intersect s2 i j rest).
+Proof.
+  induction rest as [|s rest IH]; intros j k s1 Hn Hall.
+  - destruct k; discriminate.
+  - simpl. rewrite (Hall O s) by (simpl; auto; lia).
+    destruct k as [|k].
+    + left. f_equal. lia.
+    + right. replace (j + Z.of_nat (S k)) with ((j + 1) + Z.of_nat k) by lia.
+      apply (IH (j + 1) k s1); auto.
+      intros k' s' Hk' Hn'. apply (Hall (S k') s'); auto. lia.
+Qed.
+
+Definition nonempty_supp (s : Z * Z) : Prop := fst s < snd s.
+
+Lemma nth_error_map' : forall {A B : Type} (f : A -> B) l k, nth_error (map f l) k = option_map f (nth_error l k).
+Proof. induction l; destruct k; simpl; auto. Qed.
+
+Lemma row_complete : forall supp1 s2 i k s1,
+  StronglySorted Z.le (map fst supp1) -> StronglySorted Z.le (map snd supp1) ->
+  Forall nonempty_supp supp1 -> nonempty_supp s2 ->
+  nth_error supp1 k = Some s1 -> overlap s2 s1 ->
+  let j := searchsorted_right (map snd supp1) (fst s2) in
+  In (i, Z.of_nat k) (while_intersect s2 i (Z.of_nat j) (skipn j supp1)).
+Proof.
+  intros supp1 s2 i k s1 HS1 HS2 HN1 HN2 Hk Ho j.
+  unfold overlap, nonempty_supp in *.
+  assert (Hjk : (j <= k)%nat).
+  { apply (ss_prefix (map snd supp1) (fst s2) k (snd s1)); auto.
+    rewrite nth_error_map', Hk. reflexivity. lia. }
+  replace (Z.of_nat k) with (Z.of_nat j + Z.of_nat (k - j)) by lia.
+  apply (while_complete s2 i (skipn j supp1) (Z.of_nat j) (k - j) s1).
+  - rewrite nth_error_skipn'. rewrite <- Hk. f_equal. lia.
+  - intros k' s Hk' Hs. rewrite nth_error_skipn' in Hs.
+    apply do_intersect_overlap. unfold overlap.
+    assert (E1 : fst s2 < snd s).
+    { apply (ss_suffix (map snd supp1) (fst s2) (j + k') (snd s)); auto.
+      rewrite nth_error_map', Hs. reflexivity. lia. }
+    assert (E2 : fst s <= fst s1).
+    { apply (ss_mono (map fst supp1) (j + k') k); auto. lia.
+      rewrite nth_error_map', Hs; reflexivity. rewrite nth_error_map', Hk; reflexivity. }
+    assert (E3 : fst s < snd s).
+    { rewrite Forall_forall in HN1. apply HN1. eapply nth_error_In; eauto. }
+    lia.
+Qed.
+
+Lemma sparsity_complete_l : forall supp1 supp2 a b s2 s1,
+  StronglySorted Z.le (map fst supp1) -> StronglySorted Z.le (map snd supp1) ->
+  Forall nonempty_supp supp1 -> Forall nonempty_supp supp2 ->
+  nth_error supp2 a = Some s2 -> nth_error supp1 b = Some s1 -> overlap s2 s1 ->
+  In (Z.of_nat a, Z.of_nat b) (compute_sparsity_ij supp1 supp2).
+Proof.
+  intros supp1 supp2 a b s2 s1 HS1 HS2 HN1 HN2 Ha Hb Ho. unfold compute_sparsity_ij.
+  assert (G : forall supp2 i a, Forall nonempty_supp supp2 -> nth_error supp2 a = Some s2 ->
+            In (i + Z.of_nat a, Z.of_nat b) (sparsity_loop supp1 i supp2)).
+  { clear supp2 a HN2 Ha. induction supp2 as [|s supp2 IH]; intros i a HN Ha.
+    - destruct a; discriminate.
+    - inversion HN; subst. simpl. apply in_or_app. destruct a as [|a]; simpl in Ha.
+      + inversion Ha; subst. left. rewrite Z.add_0_r. eapply row_complete; eauto.
+      + right. replace (i + Z.of_nat (S a)) with ((i + 1) + Z.of_nat a) by lia. apply IH; auto. }
+  apply (G supp2 0 a HN2 Ha).
+Qed.
+
+Lemma sparsity_spec_l : forall supp1 supp2,
+  StronglySorted Z.le (map fst supp1) -> StronglySorted Z.le (map snd supp1) ->
+  Forall nonempty_supp supp1 -> Forall nonempty_supp supp2 ->
+  forall a b, In (a, b) (compute_sparsity_ij supp1 supp2) <->
+    (0 <= a /\ 0 <= b /\ exists s2 s1,
+      nth_error supp2 (Z.to_nat a) = Some s2 /\ nth_error supp1 (Z.to_nat b) = Some s1 /\ overlap s2 s1).
+Proof.
+  intros supp1 supp2 HS1 HS2 HN1 HN2 a b. split.
+  - intros H. destruct (sparsity_sound_l _ _ _ _ H) as (s2 & s1 & Ha & Hb & H2 & H1 & Ho).
+    repeat split; auto. exists s2, s1. auto.
+  - intros (Ha & Hb & s2 & s1 & H2 & H1 & Ho).
+    rewrite <- (Z2Nat.id a), <- (Z2Nat.id b) by lia.
+    eapply sparsity_complete_l; eauto.
+Qed.
+
+(* ------------------------------------------------------------------------ *)
+(* asmatrix: the canonical sparse form denotes the same dense matrix         *)
+(* ------------------------------------------------------------------------ *)
+
+Lemma key_eqb_eq : forall a b, key_eqb a b = true <-> a = b.
+Proof.
+  intros [a1 a2] [b1 b2]. unfold key_eqb. simpl. rewrite andb_true_iff, !Z.eqb_eq.
+  split. intros [-> ->]; auto. intros H; inversion H; auto.
+Qed.
+
+Definition delta (k : Z * Z) (r c : Z) (v : Z) : Z := if (fst k =? r) && (snd k =? c) then v else 0.
+
+Lemma dense_entry_cons : forall k v l r c, dense_entry ((k, v) :: l) r c = delta k r c v + dense_entry l r c.
+Proof. intros [i j] v l r c. reflexivity. Qed.
+
+Lemma dense_entry_ins : forall l k v r c, dense_entry (ins k v l) r c = delta k r c v + dense_entry l r c.
+Proof.
+  induction l as [|[k' v'] l IH]; intros k v r c.
+  - destruct k; reflexivity.
+  - cbn [ins]. destruct (key_eqb k k') eqn:E.
+    + apply key_eqb_eq in E. subst k'. rewrite !dense_entry_cons. unfold delta.
+      destruct ((fst k =? r) && (snd k =? c)); lia.
+    + destruct (key_ltb k k').
+      * rewrite !dense_entry_cons. reflexivity.
+      * rewrite !dense_entry_cons, IH. lia.
+Qed.
+
+Lemma dense_entry_fold : forall ts acc r c,
+  dense_entry (fold_left (fun acc t => ins (fst t) (snd t) acc) ts acc) r c
+  = dense_entry ts r c + dense_entry acc r c.
+Proof.
+  induction ts as [|[k v] ts IH]; intros acc r c.
+  - simpl. lia.
+  - cbn [fold_left fst snd]. rewrite IH, dense_entry_ins, dense_entry_cons. lia.
+Qed.
+
+Lemma dense_entry_drop_zeros : forall l r c,
+  dense_entry (filter (fun t => negb (snd t =? 0)) l) r c = dense_entry l r c.
+Proof.
+  induction l as [|[k v] l IH]; intros r c; [reflexivity|].
+  cbn [filter snd]. destruct (Z.eqb_spec v 0); cbn [negb].
+  - subst v. rewrite IH, dense_entry_cons. unfold delta. destruct (_ && _); lia.
+  - rewrite !dense_entry_cons, IH. reflexivity.
+Qed.
+
+(* the canonical sparse form denotes the same dense matrix as the raw triples *)
+Lemma canon_dense : forall ts r c, dense_entry (canon ts) r c = dense_entry ts r c.
+Proof.
+  intros. unfold canon. rewrite dense_entry_drop_zeros, dense_entry_fold. simpl. lia.
+Qed.
+
+(* asmatrix(): entry (r,c) is the sum of the data entries whose layout position is (r,c) *)
+Lemma asmatrix_spec_l : forall bs bidx data r c, length bs = length bidx ->
+  dense_entry (asmatrix bs bidx data) r c = dense_entry (combine (kron_pattern bs bidx) data) r c.
+Proof.
+  intros. unfold asmatrix. rewrite canon_dense. unfold triples.
+  rewrite (nonzero_spec_l bs bidx false H) by discriminate. rewrite keep_false. reflexivity.
 Qed.
